@@ -447,8 +447,13 @@ def t_obs(truth_tree, run, vis, info):
         term = f"(Some {t_itree(o['ok'])})" if "ok" in o else "None"
         if term not in outs:
             outs.append(term)
+    outs_ns = []
+    for o in run.get("outs_ns", []):
+        term = f"(Some {t_itree(o['ok'])})" if "ok" in o else "None"
+        if term not in outs_ns:
+            outs_ns.append(term)
     return (f"(mkObs {t_placement(pid, info.get(pid))} {t_vis(vt)} {t_vis(vl)} {events} {t_pobs(run['parse'])} {wev} "
-            f"{clist(outs, str, '(option itree)')})")
+            f"{clist(outs, str, '(option itree)')} {clist(outs_ns, str, '(option itree)')})")
 
 
 _TRIPLE = re.compile(r"\(\s*(\d+)\s*,\s*(\d+)\s*,\s*(\d+)\s*\)")
@@ -497,7 +502,8 @@ GUARD_CLASS = {16384: "typed-child-tail-in-non-mixed-holder", 32768: "single-hol
                128: "xsi-nil-dropped", 256: "attr-value-prefix-expanded", 512: "attr-value-datatype-clark-rewritten",
                1024: "xsi-type-unprefixed-under-default-namespace", 2048: "python-whitespace-only-text-dropped",
                4096: "xsi-type-primitive-under-holder-wildcard-lossy"}
-CORR_CLASS = {1: "corr-handler-events", 2: "corr-parse", 4: "corr-generator-events", 8: "corr-writer"}
+CORR_CLASS = {1: "corr-handler-events", 2: "corr-parse", 4: "corr-generator-events", 8: "corr-writer",
+              65536: "corr-writer-user-nsmap"}
 
 
 def pick_placements(doc_no, root_uri, n):
@@ -622,18 +628,67 @@ def build_docs(ck):
         pls = [p for p in NESTED_PL if p.endswith("-1")] if i % 4 == 1 else NESTED_PL
         docs.append({"kind": "nested", "el": e, "handlers": ["native", "lxml"],
                      "placements": [pls[(i + j * 3) % len(pls)] for j in range(ck.n(2, 3))]})
+    # Q: every element namespace x attribute namespace labelling of a child with one or two attributes
+    #    (an attribute never takes the default namespace, so the writer needs a prefixed binding even when
+    #    the element's own namespace is already bound)
+    npl = 2
+    q0 = len(docs)
+    for root_uri in ("", "urn:a"):
+        for eu in NS:
+            for aus in [(u,) for u in NS] + [(u, v) for u in NS for v in NS]:
+                sc_attrs, e_decls = [], []
+                child, sc = g.element("a", eu, {} if not root_uri else {None: root_uri}, text=r.choice(TEXT_KINDS))
+                for j, au in enumerate(aus):
+                    local = "id" if j == 0 or au != aus[0] else "x"   # same local name in two namespaces when they differ
+                    pfx = None
+                    if au:
+                        pfx = next((q for q, u in sc.items() if u == au and q is not None), None)
+                        if pfx is None:
+                            pfx = "s" if "s" not in sc else "s2"
+                            e_decls.append((pfx, au))
+                            sc = dict(sc, **{pfx: au})
+                    sc_attrs.append(((pfx, local), str(j + 1)))
+                child.attrs, child.decls = sc_attrs, child.decls + e_decls
+                root = El((None, "R"), [(None, root_uri)] if root_uri else [], kids=[child])
+                add("exh-attr-ns", root)
     # D: one witness per listed finding (first, so that findings are attributed to them), E: chunk boundaries
-    docs = witness_docs() + docs
+    docs = witness_docs() + docs[q0:] + docs[:q0]
     docs += big_docs(g, r, ck.n(16, 80))
     for d in docs:
         d["xml"] = d.get("prolog", "") + render(d["el"])
         d["truth"] = truth(d["el"])
         d["has_pi"] = d["el"].has_pi()
+    # U: user supplied prefix maps for the serializer, built from the namespaces the document itself uses:
+    #    default-only, default + prefixed, prefixed-only; all of them for the attribute family, two elsewhere,
+    #    and now and then a default binding for a document that does not use the namespace at all
+    def uris(t):
+        out = {t["n"][1:].split("}")[0]} if t["n"].startswith("{") else set()
+        out |= {k[1:].split("}")[0] for k, _ in t["a"] if k.startswith("{")}
+        for k in t["k"]:
+            out |= uris(k)
+        return out
+    for i, d in enumerate(docs):
+        us = sorted(u for u in uris(d["truth"]) if u in NS)
+        maps = []
+        for u in us:
+            maps.append([[None, u]])
+            maps.append([["a", u]])
+            for v in us:
+                if v != u:
+                    maps.append([[None, u], ["b", v]])
+        if not us and i % 8 == 0:
+            maps.append([[None, "urn:a"]])
+        if d["kind"].startswith("big"):
+            maps = []
+        elif d["kind"] != "exh-attr-ns" and len(maps) > 2:
+            maps = r.sample(maps, 2)
+        d["ns_maps"] = maps
     return docs
 
 
 def process_batch(ck, docs, st):
-    req = {"docs": [{"xml": d["xml"], "placements": d["placements"], "handlers": d["handlers"]} for d in docs]}
+    req = {"docs": [{"xml": d["xml"], "placements": d["placements"], "handlers": d["handlers"],
+                     "ns_maps": d.get("ns_maps", [])} for d in docs]}
     res = run_impl("impl_c11.py", req, timeout=2400)
     info = res["placements"]
     stats, kinds, distinct = st["stats"], st["kinds"], st["distinct"]
@@ -653,7 +708,7 @@ def process_batch(ck, docs, st):
     case_terms, index = [], []
     n_runs = 0
     for di, (d, rr) in enumerate(zip(docs, res["results"])):
-        replay = {"doc": {k: d[k] for k in ("xml", "truth", "placements", "handlers", "kind", "has_pi")}}
+        replay = {"doc": {k: d.get(k, []) for k in ("xml", "truth", "placements", "handlers", "kind", "has_pi", "ns_maps")}}
         if "ok" not in rr["input"] or rr["input"]["ok"] != d["truth"]:
             ck.failure("harness-input-infoset", f"generated document and independent parsers disagree ({d['kind']})",
                        dict(replay, independent=rr["input"]))
@@ -680,9 +735,9 @@ def process_batch(ck, docs, st):
         distinct.add(d["xml"][-4000:])
         for oi, run_ in enumerate(runs):
             code = codes.get((ci, oi))
-            replay = {"doc": {k: d[k] for k in ("xml", "truth", "placements", "handlers", "kind", "has_pi")},
+            replay = {"doc": {k: d.get(k, []) for k in ("xml", "truth", "placements", "handlers", "kind", "has_pi", "ns_maps")},
                       "handler": run_["handler"], "placement": run_["pid"], "code": code,
-                      "impl": {k: run_.get(k) for k in ("parse", "wev", "outs", "wev_err")}}
+                      "impl": {k: run_.get(k) for k in ("parse", "wev", "outs", "outs_ns", "wev_err")}}
             who = f"{d['kind']} handler={run_['handler']} placement={run_['pid'] or 'TreeParser'}"
             short = d["xml"] if len(d["xml"]) < 300 else d["xml"][:60] + "..." + d["xml"][-200:]
             if code is None:
@@ -695,7 +750,17 @@ def process_batch(ck, docs, st):
                 continue
             for bitv, cls in CORR_CLASS.items():
                 if code & bitv:
-                    ck.failure(cls, f"model and implementation disagree ({cls}) on {who}: {short}", replay)
+                    extra = ""
+                    if bitv == 65536:
+                        # (message only; the verdict is the Coq one) show the outputs that differ from the empty-map output
+                        def nodecl(t):
+                            return [t["n"], t["a"], t["x"], t["l"], [nodecl(k) for k in t["k"]]]
+                        ref = [nodecl(o["ok"]) for o in run_.get("outs", []) if "ok" in o]
+                        diff = [o for o in run_.get("outs_ns", []) if "ok" not in o or nodecl(o["ok"]) not in ref]
+                        extra = " -- user ns_map: " + "; ".join(
+                            f"{o['writer']} ns_map={dict((p, u) for p, u in o['ns_map'])} -> "
+                            f"{o.get('text') or o.get('err') or json.dumps(o['ok'])}"[:260] for o in diff[:2])
+                    ck.failure(cls, f"model and implementation disagree ({cls}) on {who}: {short}{extra}", replay)
             guards = code & GUARD_MASK
             if guards == 0:
                 stats["guard_clean"] += 1
@@ -775,5 +840,6 @@ def run(ck: Check):
             "the two SAX sinks (xml.sax.saxutils.XMLGenerator, lxml.sax.ElementTreeContentHandler) are outside the model; "
             "the writer seam compares their re-parsed output with Model.Generic.write_tree",
             "axioms: " + (", ".join(axioms) or "none (closed under the global context)")],
-        assumptions=["serializer called with an empty user ns_map (no default namespace in the output)",
+        assumptions=["model: serializer called with an empty user ns_map; user prefix maps (default / prefixed bindings of the "
+                     "document's own namespaces) are under correspondence at the writer seam for streams without string-valued xsi:type",
                      "holder classes: non-nillable strict wildcard, no class registered under a generated element name"])
